@@ -25,7 +25,18 @@ def one_history(rng, nops, target_kinds=("ds", "ds", "ds", "grp")):
     return ops
 
 
-KNOWN = [dict(id="C02-dense-volume-multi-block", match="appears twice",
+def _collision_case():
+    ops = [{"op": "mkds", "path": "/d", "dtype": "int32", "dims": [1]}]
+    # enough attributes to be in dense storage, then two names with equal lookup3 hash ("ayou" / "cpxv")
+    for i in range(6):
+        ops.append({"op": "setattr", "path": "/d", "name": hx("pad%d" % i), "kind": "[]f64", "val": "00" * 64})
+    ops.append({"op": "setattr", "path": "/d", "name": hx("ayou"), "kind": "i32", "val": "01000000"})
+    ops.append({"op": "setattr", "path": "/d", "name": hx("cpxv"), "kind": "i32", "val": "02000000"})
+    return {"sb": 2, "ops": ops}
+
+
+KNOWN = [dict(id="C02-hash-collision", match="has attributes", case=_collision_case()),
+         dict(id="C02-dense-volume-multi-block", match="appears twice",
               case={"sb": 2, "ops": [{"op": "mkds", "path": "/d", "dtype": "int32", "dims": [1]}] +
                     [{"op": "setattr", "path": "/d", "name": hx("a%d" % i), "kind": "[]f64", "val": "01" * 8000} for i in range(9)]})]
 
